@@ -168,11 +168,16 @@ def run_rt_property(mod, tier, seed, replay=None):
             if want_fail:
                 return bool(f) and match_known(mod, known, l, f) is None
             return bool(mm)
-        if hasattr(mod, "shrink_line"):
-            return mod.shrink_line(line, pred)
-        hdr, ops = vlib.parse_case(line)
-        small = vlib.shrink_ops(hdr, ops, fails_fn if want_fail else mism_fn) if getattr(mod, "SHRINK", True) else ops
-        return vlib.case_line(hdr, small)
+        # a shrinker that trips over a degenerate candidate must never hide the failure it was shrinking: fall back to the case as found
+        try:
+            if hasattr(mod, "shrink_line"):
+                return mod.shrink_line(line, pred)
+            hdr, ops = vlib.parse_case(line)
+            small = vlib.shrink_ops(hdr, ops, fails_fn if want_fail else mism_fn) if getattr(mod, "SHRINK", True) else ops
+            return vlib.case_line(hdr, small)
+        except Exception as e:      # noqa
+            sys.stderr.write("  (shrinking abandoned: %s)\n" % str(e)[:120])
+            return line
 
     known = vlib.known_findings(prop)
     reported_known = set()
